@@ -18,7 +18,8 @@ inductive BStep where
   | sourceWithSrpm     -- if category == "source" and srpm_nevra is not None: raise ValueError
   | binaryWithoutSrpm  -- if category != "source" and srpm_nevra is None: raise ValueError
   | categoryArch       -- if (category == "source") != (nevra_dict["arch"] in (<literals>)): raise ValueError
-  | sigkeyLower        -- if sigkey is not None: sigkey = sigkey.lower()
+  | sigkeyLower        -- if sigkey is not None: sigkey = sigkey.lower()                       (before the F42 repair)
+  | sigkeyTyped        -- if sigkey is not None: if not isinstance(sigkey, <str types>): raise TypeError; sigkey = sigkey.lower()
   | srpmCanon          -- if srpm_nevra: srpm_nevra, _ = self._check_nevra(srpm_nevra) else: srpm_nevra = nevra
   | uid                -- uid, uid_dict = self._check_uid(uid)
   | assign             -- name / stream / version / context = uid_dict[...]
